@@ -111,7 +111,7 @@ PROPS["C18"] = {
 
 PROPS["C19"] = {
     "id": "C19", "cmd": "leak", "level": "exploration",
-    "rule": "scenarios = (multigraph on <=N nodes / <=E connects incl. self-loops, cycles, parallel edges) x 10 sets of extra handles (container, yielded edge, bfs path, dfs cycle, preorder nodes, postorder edges, clone, found node) x drop orders (all permutations up to 4 handles, 14 sampled beyond: originals first, last, shuffled); random scenarios on 2..8 nodes add disconnect/isolate before the drops. After every single drop: no payload of a node that a surviving handle mentions has been released, every surviving handle still reads key/value of its nodes (own payload instance); after the last drop: live count 0 and every payload instance released exactly once. The same sub-command is re-run under valgrind memcheck (leak check, definite+indirect) and under Miri (leak report at exit, UB) as independent oracles. distinct = distinct (flavour, graph, handle set, drop order).",
+    "rule": "scenarios = (multigraph on <=N nodes / <=E connects incl. self-loops, cycles, parallel edges) x 12 sets of extra handles (container, yielded edge, bfs path, dfs cycle, preorder nodes, postorder edges, clone, found node) and optional neighbour lookups / refused try_connects from both ends before the drops x drop orders (all permutations up to 4 handles, 14 sampled beyond: originals first, last, shuffled); random scenarios on 2..8 nodes add disconnect/isolate before the drops. After every single drop: no payload of a node that a surviving handle mentions has been released, every surviving handle still reads key/value of its nodes (own payload instance); after the last drop: live count 0 and every payload instance released exactly once. The same sub-command is re-run under valgrind memcheck (leak check, definite+indirect) and under Miri (leak report at exit, UB) as independent oracles. distinct = distinct (flavour, graph, handle set, drop order).",
     "shards": {"quick": 8, "thorough": 16},
     "args": {"quick": ["--max-n", "3", "--max-e", "2", "--random", "4000"], "thorough": ["--max-n", "3", "--max-e", "3", "--random", "200000"]},
     "valgrind": {"quick": {"procs": 8, "args": ["--max-n", "2", "--max-e", "2", "--random", "400"], "timeout": 600},
@@ -119,7 +119,7 @@ PROPS["C19"] = {
     "miri": {"quick": {"procs": 16, "nshards": 640, "args": ["--max-n", "2", "--max-e", "1", "--random", "0"], "timeout": 900},
              "thorough": {"procs": 16, "nshards": 64, "args": ["--max-n", "2", "--max-e", "1", "--random", "64"], "timeout": 3000}},
     "exhaustive": {"quick": True, "thorough": True},
-    "require": {"any": ["enumerations_completed", "scenarios_with_selfloop", "handle.container", "handle.edge", "handle.path", "handle.search_nodes result", "handle.search_edges result", "reads_through_surviving_handles", "random_scenarios", "valgrind.scenarios", "miri.scenarios"]},
+    "require": {"any": ["enumerations_completed", "scenarios_with_selfloop", "handle.container", "handle.edge", "handle.path", "handle.search_nodes result", "handle.search_edges result", "reads_through_surviving_handles", "random_scenarios", "valgrind.scenarios", "miri.scenarios", "scenarios_with_lookups_before_drop"]},
     "assumptions": ["the drop counters keep no addresses, so they cannot hide a leak from memcheck or Miri", "'usable' is read as: key(), value() and degree readable through the surviving handle (iterating edges whose peers the program itself dropped is outside the properties' live-node premise)"],
     "timeout": {"quick": 300, "thorough": 2400},
 }
@@ -181,7 +181,7 @@ PROPS["C14"] = {
 import c16
 PROPS["C16"] = {
     "id": "C16", "cmd": "-", "level": "exploration", "run_fn": c16.run,
-    "rule": "witness programs = {sync_digraph, sync_ungraph} x {Node, Edge, Graph} x sharing mode {clone moved into thread::spawn, &T in thread::scope, Arc<T>} x payload position {K, N, E} x hostile payload {Cell-based (Send, !Sync), Rc-based (!Send, !Sync)}, plus the same with benign (Arc<AtomicU64>) payloads in all positions, plus plain digraph/ungraph witnesses with u64 payloads; both threads touch key, value and edge values. Each witness is submitted to the compiler with hooks off: rejected with E0277 naming Send/Sync = not constructible; accepted = run under Miri with many seeds, a data race / UB in an accepted hostile or plain witness is a violation, benign witnesses must build and run race-free. distinct = distinct witness programs.",
+    "rule": "witness programs = {sync_digraph, sync_ungraph} x {Node, Edge, Graph} x sharing mode {clone moved into thread::spawn, &T in thread::scope, Arc<T>} x payload position {K, N, E} x hostile payload {Cell-based (Send, !Sync), Rc-based (!Send, !Sync), Cell-based whose Clone writes (Send, !Sync; the library clones stored keys and edge values itself)}, plus the same with benign (Arc<AtomicU64>) payloads in all positions, plus plain digraph/ungraph witnesses with u64 payloads; both threads touch key, value and edge values. Each witness is submitted to the compiler with hooks off: rejected with E0277 naming Send/Sync = not constructible; accepted = run under Miri with many seeds, a data race / UB in an accepted hostile or plain witness is a violation, benign witnesses must build and run race-free. distinct = distinct witness programs.",
     "exhaustive": {"quick": True, "thorough": True},
     "require": {"any": ["hostile_rejected_for_send_sync", "plain_rejected_for_send_sync", "positive_accepted", "positive_run_race_free", "miri_runs"]},
     "assumptions": ["the universally quantified statement over all K, N, E is a fact about the trait solver and is not decided by executions; only these concrete witnesses are", "a hostile witness that compiles but in which Miri observes no race is reported in the evidence notes, not as a violation"],
